@@ -168,9 +168,12 @@ class Conn(object):
     TCPTransport._onDisconnected -> _connectIfNecessarySingle does; every connect() (re-entrant
     or by the `connect` op) gets a fresh FakeSock and starts a new *generation*; `log` is the
     chronological record ('connect', g) / ('connected', g) / ('msg', g, id) / ('disc', g) with g
-    the generation current at that moment."""
+    the generation current at that moment.
 
-    def __init__(self, T, clock, oracle, fd, timeout, reconnect=False):
+    reuse_fd=True: the socket every connect() creates has the descriptor NUMBER of the one disconnect() closed
+    (an OS hands out the lowest free number); default: a fresh number per generation."""
+
+    def __init__(self, T, clock, oracle, fd, timeout, reconnect=False, reuse_fd=False):
         self.T = T
         self.accepted = bytearray()     # everything any socket of this connection accepted
         self.fd0 = fd
@@ -182,6 +185,7 @@ class Conn(object):
         self.conn_calls = 0
         self.oracle = oracle
         self.reconnect = reconnect
+        self.reuse_fd = reuse_fd
         self.log = [('connect', 1), ('connected', 1)]
         self.c = T.TcpConnection(self.poller, onMessageReceived=self._on_msg, onConnected=self._on_conn,
                                  onDisconnected=self._on_disc,
@@ -194,6 +198,7 @@ class Conn(object):
         self.t_init = clock.now
         self.all_delivered = []
         self.disconnected_at = None
+        self.no_write_interest = []
 
     def _on_msg(self, m):
         i = self.oracle.id_of(m)
@@ -212,7 +217,7 @@ class Conn(object):
 
     def _do_connect(self):
         self.gen += 1
-        s = FakeSock(self.fd0 + 100 * self.gen, self.accepted)
+        s = FakeSock(self.fd0 if self.reuse_fd else self.fd0 + 100 * self.gen, self.accepted)
         self.T.socket.pending = s
         ok = self.c.connect('127.0.0.1', 4321)
         if not ok:
@@ -226,7 +231,20 @@ class Conn(object):
         acc = bytes(self.accepted[acc_before:])
         ob = [st, len(c._TcpConnection__readBuffer), len(c._TcpConnection__writeBuffer), self.disc, self.conn_calls, 0,
               len(acc)] + list(acc) + [len(self.delivered)] + list(self.delivered)
+        # last element: the poller subscription of the connection's descriptor (Model.sub_code): 0 = self.__fileno is
+        # None or not subscribed, else 8 + mask (POLL_EVENT_TYPE bits READ=1 WRITE=2 ERROR=4)
+        fd_now = getattr(c, '_TcpConnection__fileno', None)
+        sub_now = self.poller.subs.get(fd_now) if fd_now is not None else None
+        ob.append(0 if sub_now is None else 8 + (sub_now[1] & 7))
         self.all_delivered += self.delivered
+        # bytes the socket did not take wait in the write buffer: the connection must have asked the poller for
+        # writability, otherwise they are sent only if the application happens to call send() again
+        fd = getattr(c, '_TcpConnection__fileno', None)
+        sub = self.poller.subs.get(fd) if fd is not None else None
+        if st == 2 and len(c._TcpConnection__writeBuffer) > 0:
+            from pysyncobj.poller import POLL_EVENT_TYPE as _P
+            if sub is None or not (sub[1] & _P.WRITE):
+                self.no_write_interest.append(len(self.events) - 1)
         if st == 0 and self.disconnected_at is None:
             self.disconnected_at = len(self.events)
         self.delivered = []
@@ -333,5 +351,6 @@ def v_case(name, conn, table):
     return ('Definition tbl_%s : list (bytes * option N) := %s.\n'
             'Definition ev_%s : list event := %s.\n'
             'Definition ex_%s : list (list N) := %s.\n' % (name, tbl, name, evs, name, exp),
-            '(check_case tbl_%s (%d)%%Z (%d)%%Z %s ev_%s ex_%s)' % (name, int(conn.t_init), int(conn.timeout),
-                                                                       v_bool(conn.reconnect), name, name))
+            '(check_case tbl_%s (%d)%%Z (%d)%%Z %s %s ev_%s ex_%s)' % (name, int(conn.t_init), int(conn.timeout),
+                                                                          v_bool(conn.reconnect), v_bool(conn.reuse_fd),
+                                                                          name, name))
